@@ -181,25 +181,34 @@ fn vname(s: &str) -> R {
     }
 }
 
-/// `enum Name<…> { V(T), W, … }` with its `#[repr(..)]`.
-fn mirror_enum(file: &syn::File, name: &str) -> Result<(Vec<(String, usize)>, bool), String> {
+/// `enum Name<P0, P1> { V(P0), W, … }` with its `#[repr(..)]`: per variant the
+/// indices of the generic parameters its fields are.
+fn mirror_enum(file: &syn::File, name: &str) -> Result<(Vec<(String, Vec<String>)>, bool), String> {
     for item in &file.items {
         let syn::Item::Enum(e) = item else { continue };
         if e.ident != name {
             continue;
         }
         let repr_u8 = e.attrs.iter().any(|a| toks(a) == "#[repr(u8)]");
+        let params: Vec<String> = e.generics.type_params().map(|p| p.ident.to_string()).collect();
         let mut vs = vec![];
         for v in &e.variants {
             if v.discriminant.is_some() {
                 return Err(format!("{name}: explicit discriminant on {}", v.ident));
             }
-            let n = match &v.fields {
-                syn::Fields::Unit => 0,
-                syn::Fields::Unnamed(u) => u.unnamed.len(),
+            let mut fields = vec![];
+            match &v.fields {
+                syn::Fields::Unit => {}
+                syn::Fields::Unnamed(u) => {
+                    for f in &u.unnamed {
+                        let t = toks(&f.ty);
+                        let idx = params.iter().position(|p| *p == t).ok_or_else(|| format!("{name}::{}: field type {t} is not a type parameter", v.ident))?;
+                        fields.push(idx.to_string());
+                    }
+                }
                 syn::Fields::Named(_) => return Err(format!("{name}: named fields")),
-            };
-            vs.push((vname(&v.ident.to_string())?, n));
+            }
+            vs.push((vname(&v.ident.to_string())?, fields));
         }
         return Ok((vs, repr_u8));
     }
@@ -375,9 +384,9 @@ fn boundary(repo: &Path) -> R {
     ] {
         let f = find::parse(repo, file)?;
         let (vs, repr) = mirror_enum(&f, en)?;
-        let vs: Vec<String> = vs.iter().map(|(n, k)| format!("({n}, {k})")).collect();
+        let vs: Vec<String> = vs.iter().map(|(n, k)| format!("({n}, {})", lean_list(k))).collect();
         o.push_str(&format!(
-            "/-- `{en}`: variants in declaration order with their number of fields -/\ndef {lean}Variants : List (VName × Nat) := {}\ndef {lean}ReprU8 : Bool := {repr}\n",
+            "/-- `{en}`: variants in declaration order, each with the indices of the type parameters of its fields -/\ndef {lean}Variants : List (VName × List Nat) := {}\ndef {lean}ReprU8 : Bool := {repr}\n",
             lean_list(&vs)
         ));
     }
